@@ -138,7 +138,7 @@ def corpus_sets():
 
 MISTAKES = ["dup_pub_fn", "dup_pub_const", "dup_pub_struct", "type_error_in_importer", "error_in_imported",
             "unresolved_import", "syntax_error", "undefined_in_two_modules", "cyclic_consts", "cyclic_structs",
-            "cyclic_struct_const", "multibyte_then_error", "triple_duplicate", "lints_in_two_files", "hex_separator_then_error", "deep_nesting", "lexical_error_in_name_position", "skipped_declarations", "long_line_then_error"]
+            "cyclic_struct_const", "multibyte_then_error", "triple_duplicate", "lints_in_two_files", "hex_separator_then_error", "deep_nesting", "lexical_error_in_name_position", "skipped_declarations", "long_line_then_error", "same_pub_fn_in_two_modules"]
 
 
 def generated_set(seed, i):
@@ -228,6 +228,11 @@ def generated_set(seed, i):
             pad = " + ".join(["1"] * 600)
             files[sp.files[b]] += ('\nfn zz_long()\n{\n\tvar s = "\u00e9\u00e9\t\u20ac"; var q: i32 = %s + zz_missing_far_right;\n'
                                    '\tvar t: u8 = %s + true;\n}\n' % (pad, pad))
+        elif m == "same_pub_fn_in_two_modules":
+            # two definitions with external linkage, in modules that need not import each other
+            two = rng.sample(range(sp.k), 2) if sp.k >= 2 else [0, 0]
+            for b in two:
+                files[sp.files[b]] += "\npub fn zz_same(a: i32) -> i32\n{\n\treturn: a + %d\n}\n" % b
         elif m == "triple_duplicate":
             b = rng.randrange(sp.k)
             files[sp.files[b]] += "\nfn zz_tri()\n{\n}\n\nfn zz_tri()\n{\n}\n\nfn zz_tri()\n{\n}\n\nconst ZZ_TRI: i32 = 1;\nconst ZZ_TRI: i32 = 2;\nconst ZZ_TRI: i32 = 3;\n"
@@ -662,6 +667,11 @@ def evaluate_set(s, wd, cfg, rng, stats):
                     bad = sorted({c for c in text if ord(c) > 127 and c not in src_chars and c != "�"})
                     if bad:
                         viol.append(("ascii_arrows_has_non_ascii", "%s prints %r" % (where, bad[:8]), {}))
+    # a failing compilation says why in a diagnostic of its own: a code from the catalogue
+    # (not a bare message of a library underneath, without code or location)
+    # (the tool's own top-level `Error: ...` lines - unreadable input and the like - are C18's business)
+    if not panicked and base_r.rc == 1 and not base_heads and not base_r.timeout and b"Error: " not in base_r.err:
+        viol.append(("failure_without_code", "exit 1 and no diagnostic with a code on stderr: %r" % base_r.err.decode(errors="replace")[-300:], {}))
     # rendering must find every source it quotes
     for r in [x[3] for x in obs[:1]]:
         if b"Unable to fetch source" in r.err:
